@@ -645,7 +645,30 @@ def gen_print(g, env):
     return ['print', items]
 
 
+LONG_STR_PIECES = ["didn't", 'say "hi"', "it''s", 'a & b', "o'clock ", ' ! x ', '"q" and \'p\'', 'plain text', "'", '"',
+                   'x = y + 1', "end 'do'", 'tab;semi', "can't \"won't\""]
+
+
+def gen_longline(g, env):
+    """a statement that the backend must wrap (> 132 columns) and that consists of string literals containing
+    quote characters of both kinds: PRINT (item-wise wrapping) or a one-line IF around it (one long item)"""
+    items = []
+    total = 0
+    while total < g.i(110, 190):
+        txt = ''.join(g.pick(LONG_STR_PIECES) for _ in range(g.i(1, 4)))
+        items.append(['s', txt, g.pick(["'", '"'])])
+        total += len(txt) + 4
+    if g.chance(40):
+        items.insert(g.i(0, len(items)), int_expr(g, env, 1))
+    pr = ['print', items]
+    if g.chance(50):
+        return ['if1', log_expr(g, env, 1), pr]
+    return pr
+
+
 def gen_stmt(g, env, depth, nstmts, in_loop=False):
+    if g.p.get('print') and g.p.get('longlines', True) and g.chance(4):
+        return [gen_longline(g, env)]
     kinds = ['assign'] * 6
     if depth < g.p['max_depth']:
         kinds += ['do'] * 3 + ['if'] * 3
